@@ -129,6 +129,16 @@ def _model_inputs(model, env):
     out = {}
     for name, (v, bits) in env.vars.items():
         out[name] = model.eval(v, model_completion=True).as_long()
+    for name, mem in env.mems.items():
+        base = z3.Array(name, z3.BitVecSort(32), z3.BitVecSort(8))
+        content = {}
+        for kind, a, size in mem.log:
+            av = model.eval(a, model_completion=True).as_long()
+            for i in range(size):
+                x = (av + i) & 0xFFFFFFFF
+                if x not in content:
+                    content[x] = model.eval(z3.Select(base, z3.BitVecVal(x, 32)), model_completion=True).as_long()
+        out[name] = {str(k): v for k, v in sorted(content.items())}
     return out
 
 
